@@ -31,7 +31,7 @@ def entry_agreement(F, rep):
     w_ok = gecko_writer_ok(F, wb)
     rb = F.body("io::peppi::de::read_peppi_gecko_codes")
     rt = tir.pretty(rb["tir"]["value"])
-    r_ok = "r.read_exact(&mut actual_size)?" in rt and "r.read_to_end(&mut bytes)?" in rt and "actual_size: u32::from_le_bytes(actual_size)" in rt.replace("core::num::<impl u32>::from_le_bytes", "u32::from_le_bytes").replace("std::primitive::u32::from_le_bytes", "u32::from_le_bytes") and "bytes: bytes" in rt
+    r_ok = gecko_reader_ok(rb)
     le_calls = [callee(x) for x in tir.walk(rb["tir"]["value"]) if x.get("k") == "Call" and "from_" in (callee(x) or "") and "_bytes" in (callee(x) or "")]
     rep.ob("entry.gecko-writer", w_ok, peppifmt.WRITE, "gecko_codes.raw", "the gecko entry must be actual_size as 4 little-endian bytes followed by the blob")
     rep.ob("entry.gecko-reader", r_ok and all((c or "").endswith("from_le_bytes") for c in le_calls) and len(le_calls) == 1, "io::peppi::de::read_peppi_gecko_codes", "gecko_codes.raw",
@@ -59,6 +59,29 @@ def entry_agreement(F, rep):
                    "metadata is an Option written unconditionally (None renders as JSON null) but the reader rejects null")
 
 
+def gecko_reader_ok(rb):
+    """4 bytes read exactly into A, the rest read to the end into B, GeckoCodes { actual_size: u32::from_le_bytes(A), bytes: B }"""
+    root = rb["tir"]["value"]
+    env = tir.LetEnv(root)
+    rname = rb["tir"]["params"][0].get("name")
+    import flow
+    reads = [c for g, c in flow.ordered_calls(root, lambda n: n.get("k") == "MethodCall" and n["method"] in ("read_exact", "read_to_end", "read", "read_to_string") and L.local_name(n["recv"]) == rname)]
+    if [x["method"] for x in reads] != ["read_exact", "read_to_end"]:
+        return False
+    a_id, b_id = strip(reads[0]["args"][0]).get("id"), strip(reads[1]["args"][0]).get("id")
+    a_ty = strip(reads[0]["args"][0]).get("ty") or ""
+    if "[u8; 4]" not in a_ty or a_id is None or b_id is None:
+        return False
+    for n in tir.walk(root):
+        if n.get("k") == "Struct" and (n.get("path") or "").endswith("GeckoCodes"):
+            f = {x["name"]: x["e"] for x in n["fields"]}
+            sz = env.resolve(f.get("actual_size") or {})
+            ok_sz = sz.get("k") == "Call" and (declared(sz) or "").endswith("from_le_bytes") and strip(sz["args"][0]).get("id") == a_id
+            ok_b = strip(f.get("bytes") or {}).get("id") == b_id
+            return bool(ok_sz and ok_b)
+    return False
+
+
 def raw_decoder_rule(F, rep, rule="entry.raw-decoder"):
     """raw start/end: the whole entry (read to its end, whatever its length) is handed to the .slp decoders"""
     for fn, dec in (("io::peppi::de::read_peppi_start", "io::slippi::de::game_start"), ("io::peppi::de::read_peppi_end", "io::slippi::de::game_end")):
@@ -81,8 +104,12 @@ def gecko_writer_ok(F, wb):
     for n in tir.walk(root):
         if n.get("k") == "Let" and n["pat"].get("k") == "Bind" and n.get("init") is not None:
             i = strip(n["init"])
+            le = None
             if i.get("k") == "MethodCall" and i["method"] in ("to_vec", "into", "to_owned"):
                 le = strip(i["recv"])
+            elif i.get("k") == "Call" and (declared(i) or "").endswith("From::from") and len(i["args"]) == 1 and (i.get("ty") or "").startswith("std::vec::Vec<u8"):
+                le = strip(i["args"][0])       # Vec::from([u8; 4])
+            if le is not None:
                 if le.get("k") == "MethodCall" and le["method"] == "to_le_bytes" and (tir.place(le["recv"]) or "").endswith(".actual_size"):
                     base = tir.place(le["recv"]).rsplit(".", 1)[0]
                     bid = n["pat"]["id"]
